@@ -556,7 +556,7 @@ impl Prop for C07 {
         }
     }
     fn rule(&self) -> &'static str {
-        "one run = a generated call tree (exec, call, syscall, dyncall, dynexec; 0-3 locals; kernel procedures using caller) whose procedures perform element/word/stream/pipe/local loads and stores over a pool of 4-6 addresses shared by every context (incl. 2^32-1), with observation events after every load and after every return, at which the simulated host also probes the pool in the current context. A reference interpreter with per-context memory maps, per-frame locals, a concrete stack that is cut to 16 at call boundaries, and the fmp rule predicts every event: stack snapshot, depth, fmp, context identity (fresh per call, root for syscall, restored on return), memory probes. Fault scenarios: callee returning with depth != 16, addresses >= 2^32. Non-trivial = execution reached at least 3 observation events; distinct = digest of the scenario."
+        "one run = a generated call tree (exec, call, syscall, dyncall, dynexec; 0-3 locals; kernel procedures using caller) whose procedures perform element/word/stream/pipe/local loads and stores over a pool of 4-6 addresses shared by every context (incl. 2^32-1), with observation events after every load and after every return, at which the simulated host also probes the pool in the current context. A reference interpreter with per-context memory maps, per-frame locals, a concrete stack that is cut to 16 at call boundaries, and the fmp rule predicts every event: stack snapshot, depth, fmp, context identity (fresh per call, root for syscall, restored on return), memory probes. The initial stack holds 0-30 input values (overflow rows not created by an instruction), partly dropped before the first invocation; a quarter of the runs compile program and kernel from their serialised ASTs. Fault scenarios: callee returning with depth != 16, addresses >= 2^32. Non-trivial = execution reached at least 3 observation events; distinct = digest of the scenario."
     }
     fn generate(&self, rng: &mut Rng, _tier: Tier, _index: u64) -> Value {
         let mut pool: Vec<u64> = vec![0, 1, 2, (1 << 32) - 1];
@@ -594,7 +594,16 @@ impl Prop for C07 {
                 procs[j].body.push(A::ExtraPush);
             }
         }
+        // initial stack deeper than 16 (overflow rows that were not created by an instruction), partly
+        // consumed before the first invocation
+        let n_in = *g.rng.pick(&[0usize, 0, 0, 5, 16, 17, 18, 20, 30]);
+        let stack_inputs: Vec<String> = (0..n_in).map(|_| g.val().to_string()).collect();
+        let init_drops = if n_in > 16 { g.rng.below((n_in - 16 + 2) as u64) } else { 0 };
+        let via_ast_bytes = g.rng.chance(1, 4);
         json!({
+            "stack_inputs": stack_inputs,
+            "init_drops": init_drops,
+            "via_ast_bytes": via_ast_bytes,
             "pool": pool.iter().map(|x| x.to_string()).collect::<Vec<_>>(),
             "procs": procs.iter().map(|p| json!({"locals": p.locals, "kind": p.kind, "body": p.body.iter().map(a_to_json).collect::<Vec<_>>()})).collect::<Vec<_>>(),
             "main": main.iter().map(a_to_json).collect::<Vec<_>>(),
@@ -614,13 +623,44 @@ impl Prop for C07 {
             .collect();
         let main: Vec<A> = sc["main"].as_array().cloned().unwrap_or_default().iter().map(a_from_json).collect();
         // reference model
-        let mut m = Model { procs: &procs, pool: &pool, stack: vec![Some(0); 16], hidden: vec![], mem: BTreeMap::new(), ctx: 0, next_ctx: 1, fmp: FMP_MIN, frame_base: vec![FMP_MIN], out: vec![], must_fail: None, advice: vec![], budget: 20_000 };
+        let inputs: Vec<u64> = vm::u64s(&sc["stack_inputs"]);
+        let init_drops = sc["init_drops"].as_u64().unwrap_or(0) as usize;
+        let mut stack0: Vec<Option<u64>> = inputs.iter().rev().map(|v| Some(*v)).collect();
+        while stack0.len() < 16 {
+            stack0.insert(0, Some(0));
+        }
+        let mut m = Model { procs: &procs, pool: &pool, stack: stack0, hidden: vec![], mem: BTreeMap::new(), ctx: 0, next_ctx: 1, fmp: FMP_MIN, frame_base: vec![FMP_MIN], out: vec![], must_fail: None, advice: vec![], budget: 20_000 };
+        for _ in 0..init_drops {
+            m.pop();
+        }
         m.run(&main, 0);
         let expected = m.out.clone();
         let must_fail = m.must_fail.clone();
         let (src, kernel) = sources(&procs, &main);
-        let spec = ProgSpec { source: src.clone(), kernel: kernel.clone(), advice_stack: m.advice.clone(), ..Default::default() };
-        let program = match spec.assemble(false) {
+        let src = if init_drops > 0 { src.replacen("begin\n", &format!("begin\n    {}\n", vec!["drop"; init_drops].join(" ")), 1) } else { src };
+        let spec = ProgSpec { source: src.clone(), kernel: kernel.clone(), advice_stack: m.advice.clone(), stack_inputs: inputs.clone(), ..Default::default() };
+        let assembled = if sc["via_ast_bytes"].as_bool().unwrap_or(false) {
+            // the same program and kernel compiled from their serialised ASTs (as a library user would)
+            out.count("probe:compiled-from-serialised-ast");
+            match catch(|| -> Result<processor::Program, String> {
+                use assembly::ast::{AstSerdeOptions, ModuleAst, ProgramAst};
+                let mut a = assembly::Assembler::default();
+                if let Some(k) = &kernel {
+                    let ast = ModuleAst::parse(k).map_err(|e| format!("{e}"))?;
+                    let back = ModuleAst::from_bytes(&ast.to_bytes(AstSerdeOptions::new(true))).map_err(|e| format!("{e}"))?;
+                    a = a.with_kernel_module(back).map_err(|e| format!("kernel: {e}"))?;
+                }
+                let ast = ProgramAst::parse(&src).map_err(|e| format!("{e}"))?;
+                let back = ProgramAst::from_bytes(&ast.to_bytes(AstSerdeOptions::new(true))).map_err(|e| format!("{e}"))?;
+                a.compile_ast(&back).map_err(|e| format!("{e}"))
+            }) {
+                Ok(r) => r,
+                Err((loc, msg)) => Err(format!("PANIC {loc}: {msg}")),
+            }
+        } else {
+            spec.assemble(false)
+        };
+        let program = match assembled {
             Ok(p) => p,
             Err(e) => {
                 if e.starts_with("PANIC") {
